@@ -29,6 +29,7 @@ Term kinds (Tm.k / Tm.a):
   mutated (prev, effect)             variable after `f(&mut var, ...)`
   opaque  (why,)
 """
+import re
 from . import thir as T
 
 
@@ -249,7 +250,7 @@ class Evaluator:
                     return Tm("match", (c[1], earlier + ((c[2], c[3], inner), (WILD, None, res))))
                 return Tm("match", (c[1], ((c[2], None, res), (WILD, None, inner))))
             res = wrap(0)
-        return res
+        return prune_nested(prune_nested(res)) if returns else res
 
     def sited(self, path):
         """[site dicts] of one function family: calls, arithmetic, indexing and loops with their path conditions."""
@@ -283,7 +284,9 @@ class Evaluator:
         try:
             env = self.fn_env(path)
             st = _State(env)
+            base = len(self.pc)
             t = self.ev(self.prog.root(path), st, 0)
+            t = self.with_returns(t, st.returns, base)
             return t, _prefer_resolved(self.trace), _prefer_resolved(self.conds)
         finally:
             self.trace, self.conds = old
@@ -305,6 +308,20 @@ class Evaluator:
             return self._apply_path(f.a[0], args, {}, depth, closure=False)
         if f.k == "phi":
             return phi([self.apply(x, args, depth) for x in f.a])
+        if f.k == "match":
+            # a function chosen by a match and then applied: apply inside every arm
+            return Tm("match", (f.a[0], tuple((p, g, self.apply(b, args, depth)) for p, g, b in f.a[1])), f.n)
+        if f.k == "if":
+            return Tm("if", (f.a[0], self.apply(f.a[1], args, depth), self.apply(f.a[2], args, depth)), f.n)
+        if f.k == "fnitem" and "::" in f.a[0]:
+            # a tuple-variant / tuple-struct constructor used as a function value
+            adt, _, var = f.a[0].rpartition("::")
+            adt = re.sub(r"::<.*>$", "", adt)
+            info = self.prog.adts.get(adt)
+            if info:
+                for v in info.get("variants", []):
+                    if v["name"] == var and len(v["fields"]) == len(args):
+                        return Tm("adt", (adt, var, tuple((fl["name"], a) for fl, a in zip(v["fields"], args))), f.n)
         return Tm("call", ("<apply>", f) + tuple(args))
 
     def _apply_path(self, path, args, captured, depth, closure):
@@ -703,7 +720,20 @@ class Evaluator:
             self.conds.append(scrut)
         arms = []
         forks = []
+        # an arm `P1 | P2 => body` is evaluated as two arms with the same body: every alternative gets its own bindings
+        src_arms = []
         for a in e["arms"]:
+            p, wrap = a["pat"], []
+            while p.get("k") in ("Deref", "DerefPattern"):
+                wrap.append(p); p = p["sub"]
+            if p.get("k") == "Or" and len(p.get("pats") or []) > 1:
+                for q in p["pats"]:
+                    for w in reversed(wrap):
+                        q = dict(w, sub=q)
+                    src_arms.append(dict(a, pat=q))
+            else:
+                src_arms.append(a)
+        for a in src_arms:
             s2 = st.fork()
             self.bind(a["pat"], scrut, s2.env)
             g = self.ev(a["guard"], s2, depth) if "guard" in a else None
@@ -768,23 +798,62 @@ class Evaluator:
         return Tm("tuple", (), e)
 
     def ev_block(self, b, st, depth):
-        for s in b["stmts"]:
-            if s["k"] == "Expr":
-                self.ev(s["e"], st, depth)
-            else:
-                if "init" in s:
-                    v = self.ev(s["init"], st, depth)
-                    if "else" in s:
-                        # let-else: diverging else block; value is the matched component
-                        s3 = st.fork()
-                        self.ev_block(s["else"], s3, depth)
-                        st.returns.extend(s3.returns[len(st.returns):])
-                    self.bind(s["pat"], v, st.env)
+        pushed = 0
+        try:
+            for s in b["stmts"]:
+                if s["k"] == "Expr":
+                    t = self.ev(s["e"], st, depth)
+                    # `if c { return .. }` (no else): the rest of the block runs under not-c; same for `if let P = x { return .. }`
+                    e0 = T.strip(s["e"])
+                    if e0.get("k") == "If" and "else" not in e0 and _diverges(e0.get("then")) and isinstance(t, Tm):
+                        if t.k == "if":
+                            self.pc.append(("if", t.a[0], False)); pushed += 1
+                        elif t.k == "match" and len(t.a[1]) == 2:
+                            self.pc.append(("notarm", t.a[0], t.a[1][0][0], None)); pushed += 1
                 else:
-                    self.bind(s["pat"], Tm("opaque", ("uninit",)), st.env)
+                    if "init" in s:
+                        v = self.ev(s["init"], st, depth)
+                        if "else" in s:
+                            # let-else: diverging else block (reached when the pattern does not match)
+                            s3 = st.fork()
+                            self.pc.append(("notarm", v, s["pat"], None))
+                            self.ev_block(s["else"], s3, depth)
+                            self.pc.pop()
+                            # ... and what follows runs under "the pattern matched"
+                            self.pc.append(("arm", v, s["pat"], None)); pushed += 1
+                        self.bind(s["pat"], v, st.env)
+                    else:
+                        self.bind(s["pat"], Tm("opaque", ("uninit",)), st.env)
+            if "tail" in b:
+                return self.ev(b["tail"], st, depth)
+            return Tm("tuple", ())
+        finally:
+            for _ in range(pushed):
+                self.pc.pop()
+
+
+def _diverges(e):
+    """syntactically: does evaluating e always leave by return / break / continue?"""
+    if not isinstance(e, dict):
+        return False
+    e = T.strip(e)
+    k = e.get("k")
+    if k in ("Return", "Break", "Continue"):
+        return True
+    if k == "Block":
+        b = e["b"]
         if "tail" in b:
-            return self.ev(b["tail"], st, depth)
-        return Tm("tuple", ())
+            return _diverges(b["tail"])
+        for s in reversed(b["stmts"]):
+            if s["k"] == "Expr":
+                return _diverges(s["e"])
+            return False
+        return False
+    if k == "If":
+        return "else" in e and _diverges(e["then"]) and _diverges(e["else"])
+    if k == "Match":
+        return bool(e.get("arms")) and all(_diverges(a["body"]) for a in e["arms"])
+    return e.get("ty") == "!"
 
 
 def _assigned_vars(e):
@@ -1045,3 +1114,100 @@ def simplify1(x):
             if r is False:
                 return x.a[1]
     return x
+
+
+def _shape_of_pat(p):
+    """A shape (vflib.tables) that exactly the values matched by pattern p have - only for constant strings and for variants
+    whose fields are wildcards/bindings; None otherwise."""
+    from . import tables
+    while p.get("k") in ("Deref", "DerefPattern"):
+        p = p["sub"]
+    if p.get("k") == "Constant" and p.get("str"):
+        return ("s", p["value"])
+    if p.get("k") == "Variant" and all((f["pat"].get("k") in ("Wild",) or (f["pat"].get("k") == "Binding" and not f["pat"].get("sub"))) for f in p.get("fields", [])):
+        return ("v", p["variant"], [tables.ANY] * p.get("nfields", len(p.get("fields", []))))
+    if p.get("k") == "Leaf" and "adt" not in p and p.get("fields"):
+        subs = [None] * p.get("arity", len(p["fields"]))
+        for f in p["fields"]:
+            if f["idx"] < len(subs):
+                subs[f["idx"]] = _shape_of_pat(f["pat"])
+        if all(x is not None for x in subs):
+            return ("t", subs)
+    return None
+
+
+def prune_nested(t, known=None, depth=0, known_not=None):
+    """Tidy the conditionals that rebuilt early returns leave behind (all steps preserve the term's meaning):
+    * inside an arm `P => body` of a match on S, a nested match on the same S takes the arm compatible with P;
+    * inside the catch-all arm that follows arms P1..Pn, a nested match on S cannot take P1..Pn: those arms are dropped;
+    * `Ok(match S {..=> x})` becomes `match S {..=> Ok(x)}` (same for Some/Err and for if);
+    * a catch-all arm whose body is a match on the same S is spliced into the outer match."""
+    from . import tables
+    known = known or {}
+    known_not = known_not or {}
+    if not isinstance(t, Tm) or depth > 40:
+        return t
+    if t.k == "match":
+        scrut = t.a[0]
+        src = list(t.a[1])
+        if scrut in known and all(g is None for _, g, _ in src):
+            sel = tables.select(src, known[scrut])
+            if len(sel) == 1 and sel[0][1] == "definite":
+                return prune_nested(src[sel[0][0]][2], known, depth + 1, known_not)
+        if scrut in known_not:
+            kept = []
+            for p, g, b in src:
+                sh = _shape_of_pat(p) if g is None else None
+                if sh is not None and sh in known_not[scrut]:
+                    continue
+                kept.append((p, g, b))
+            if kept:
+                src = kept
+        arms = []
+        earlier = []
+        for p, g, b in src:
+            sh = _shape_of_pat(p) if g is None else None
+            if sh is not None and sh in earlier:
+                continue        # an earlier arm with exactly this pattern always wins
+            k2, kn2 = dict(known), dict(known_not)
+            pp = p
+            while pp.get("k") in ("Deref", "DerefPattern"):
+                pp = pp["sub"]
+            if sh is not None:
+                k2[scrut] = sh
+            elif g is None and pp.get("k") in ("Wild", "Binding") and not pp.get("sub") and earlier:
+                kn2[scrut] = list(kn2.get(scrut, [])) + earlier
+            arms.append((p, g, prune_nested(b, k2, depth + 1, kn2)))
+            if sh is not None:
+                earlier.append(sh)
+        # splice a trailing catch-all whose body matches on the same scrutinee
+        if arms:
+            p, g, b = arms[-1]
+            pp = p
+            while pp.get("k") in ("Deref", "DerefPattern"):
+                pp = pp["sub"]
+            if g is None and pp.get("k") == "Wild" and isinstance(b, Tm) and b.k == "match" and b.a[0] == scrut:
+                arms = arms[:-1] + list(b.a[1])
+        if len(arms) == 1:
+            p, g, b = arms[0]
+            pp = p
+            while pp.get("k") in ("Deref", "DerefPattern"):
+                pp = pp["sub"]
+            if g is None and pp.get("k") == "Wild":
+                return b            # only the catch-all is left
+        return Tm("match", (scrut, tuple(arms)), t.n)
+    if t.k == "if":
+        return Tm("if", (t.a[0], prune_nested(t.a[1], known, depth + 1, known_not), prune_nested(t.a[2], known, depth + 1, known_not)), t.n)
+    if t.k == "adt":
+        fs = tuple((n, prune_nested(v, known, depth + 1, known_not)) for n, v in t.a[2])
+        if len(fs) == 1 and t.a[1] in ("Ok", "Some", "Err") and isinstance(fs[0][1], Tm) and fs[0][1].k in ("match", "if"):
+            inner = fs[0][1]
+            never = lambda x: isinstance(x, Tm) and x.k == "opaque" and x.a and x.a[0] == "never"
+            wrap = lambda x: x if never(x) else Tm("adt", (t.a[0], t.a[1], ((fs[0][0], x),)), t.n)
+            if inner.k == "match":
+                return Tm("match", (inner.a[0], tuple((p, g, wrap(b)) for p, g, b in inner.a[1])), inner.n)
+            return Tm("if", (inner.a[0], wrap(inner.a[1]), wrap(inner.a[2])), inner.n)
+        return Tm("adt", (t.a[0], t.a[1], fs), t.n)
+    if t.k == "phi":
+        return phi([prune_nested(x, known, depth + 1, known_not) for x in t.a])
+    return t
